@@ -650,6 +650,11 @@ def b_field_anon(o):
     r.fields.append(f)
     if o('after'):
         r.fields.append(ast.Field('after', INT(), True, False))
+    if o('length_after'):      # an array field whose length field is 'before': written as a field index
+        a = ast.Array(None, ast.Type(target_fundamental='guint8', ctype='guint8'), ctype='guint8*')
+        a.zeroterminated = False
+        a.length_param_name = 'before'
+        r.fields.append(ast.Field('data', a, True, True))
     ns.append(r)
     return ns
 
@@ -990,6 +995,8 @@ def _work_ast(task):
             part.nontrivial(repr((case['kind'], case['on'], case['text'], case['shape'])))
         if err:
             key = 'ast:%s:%s' % (case['kind'], _err_class(err))
+            if case['kind'] == 'field-anonymous' and 'length_after' in case['on']:
+                key = 'ast:anon-member-and-array-length'     # one root cause, two symptoms (crash / length lost)
             size = (len(case['on']), repr(case))
             if key not in best or size < best[key][0]:
                 best[key] = (size, err, case)
@@ -1230,6 +1237,17 @@ def extra_scan_cases():
                                      ret=('(array length=n)', 'r')),
                                g.blk('FooXCb', params=[('data', '(closure)', 'd')])],
                   'dump': None, 'note': 'length index 0 on parameter and return, closure=0 in a callback'})
+    # anonymous struct/union member at every position relative to an (array length=n) field and its length field
+    for union in (True, False):
+        anon = ['fu', 'u', [['x', 'int'], ['y', 'double']], union]
+        nf, df = ['f', 'n', 'guint'], ['f', 'data', 'guint8*']
+        for pos, fields in (('first', [anon, nf, df]), ('between', [nf, anon, df]), ('last', [nf, df, anon]),
+                            ('between-reversed', [df, anon, nf]), ('first-reversed', [anon, df, nf])):
+            cases.append({'part': 'X', 'decls': [g.td('FooB', 'struct _FooB'), g.st('_FooB', fields)],
+                          'comments': [g.blk('FooB', params=[('data', '(array length=n)', 'data')])], 'dump': None,
+                          'keytag': 'anon-member-and-array-length',
+                          'note': 'record with anonymous %s member %s, field data (array length=n)' % (
+                              'union' if union else 'struct', pos)})
     # direction x nullable x optional through the real annotation path
     for d_ann in ('', '(out)', '(inout)', '(out caller-allocates)', '(out callee-allocates)'):
         for n_ann in ('', '(nullable)', '(optional)', '(nullable) (optional)', '(allow-none)', '(not nullable)'):
@@ -1296,6 +1314,8 @@ def _work_scanned(chunk):
         part.nontrivial('scan:' + case['note'])
         if err:
             key = 'scan:%s' % _err_class(err)
+            if case.get('keytag'):
+                key = 'scan:%s' % case['keytag']
             size = (len(case['decls']), case['note'])
             if key not in best or size < best[key][0]:
                 best[key] = (size, err, case)
